@@ -98,6 +98,9 @@ def run(tier, seed):
             ('orders', [c for c in fam.fam_orders(thorough=th) if common.cfg_features(c)['order_outside'] or c['id'] % 5 == 0])]
     # assets with a coarser frequency of their own whose window ends inside the horizon, on and off a coarse boundary
     fams.append(('coarse_window', fam.renumber([c for c in fam.fam_coarse(thorough=th) if c['T'] >= 6])))
+    # scaled assets whose own window (fixed costs per covered time) differs from the horizon and from the base asset's window
+    sc = [c for c in fam.fam_scaled(thorough=th) if any('fws' in a and (a['fws'], a['fwe']) != (a['ws'], a['we']) for a in c['assets'])]
+    fams.append(('scaled_window', fam.renumber(sc if th else sc[seed % 3::3])))
     if th:
         fams.append(('placement_T4', fam.fam_placement(T=4)))
     for tag, cfgs in fams:
@@ -107,7 +110,7 @@ def run(tier, seed):
         neg = [c for k, c in enumerate(cfgs) if k % step == (seed % step)]
         pos = common.spec_to_code(chk, cfgs, make_real, relax=RELAX, neg_cfgs=neg, tag=tag)
         common.code_to_spec(chk, cfgs, make_real, tag=tag)
-        if tag in ('orders', 'coarse_window') or not pos:
+        if tag in ('orders', 'coarse_window', 'scaled_window') or not pos:
             continue
         # ---- pairs with / without the element
         base = [without(c) for c in cfgs]
